@@ -6,7 +6,12 @@
       covariance `Σ` (the constructor's `cov`): `L Lᵀ = Σ` by `Props/C19/MVNCholesky.mvn_new_chol_decomp`;
     * `MultivariateStudent::sample` over ℝ: `chiSquared_new_real`, `mvt_sample_eq_none_iff_real` (`none ⇔ freedom ≤ 0`),
       `mvt_new_sample_isSome` (never on a constructed object), `mvt_sample_toVec` (`x = location + w·(L z)`,
-      `w = √(ν / c)`, `c` the chi-squared draw made first, `z` drawn from the stream after it);
+      `w = √(ν / c)`, `c` the chi-squared draw made first, `z` drawn from the stream after it) — over ℝ no `freedom`
+      is infinite, so the `is_infinite()` branch added by 864abd5 is never taken there;
+    * that branch (`freedom = ±inf`, weight `1.0`, no chi-squared draw) on the carriers that have infinities:
+      `xr_mul_one_lit`, `mvt_sample_of_inf_xr`, `mvt_sample_of_inf_xr_eq_mvn` (exact-value carrier `XR`: the sample IS
+      `MultivariateNormal::sample` of the object with the same location and factor), `mvt_sample_of_inf_float`,
+      `mvt_sample_of_inf_float_mvn` (IEEE `Float`: same stream, entries IEEE-equal or both NaN);
     * `multinomial_sample_f64_eq` (`Multinomial::sample` as `OVector<f64>` is `ofInt ∘` the `u64` sampler, same
       stream), `multinomial_sample_f64_spec` (one entry per category, every entry a non-negative integer, entries sum
       to `n`, `n` words consumed);
@@ -16,10 +21,13 @@
 -/
 import Statrs.Props.C06.VectorSamplersReal
 import Statrs.Props.C05.EmpiricalQuantile
+import Statrs.Spec.XR
+import Statrs.Props.Common.FloatLawsFloat_OfInt
 set_option linter.unusedVariables false
 set_option linter.unusedSectionVars false
 namespace Statrs.Props.C06
-open Statrs Statrs.Gen Statrs.Model Statrs.Spec Statrs.Lemmas.Multivariate Statrs.Lemmas.Sampling
+open Statrs Statrs.Gen Statrs.Model Statrs.Lemmas.Multivariate Statrs.Lemmas.Sampling
+open Statrs.Spec hiding Fin  -- `Statrs.Spec.Fin` ("finite float", Spec/FloatLaws.lean) would shadow `_root_.Fin`
 open MeasureTheory ProbabilityTheory Matrix
 
 /-! ### constructed `MultivariateNormal` -/
@@ -98,7 +106,7 @@ theorem chiSquared_new_real (ν : ℝ) :
 /-- full(ℝ): `MultivariateStudent::sample` panics exactly when `freedom ≤ 0`. -/
 theorem mvt_sample_eq_none_iff_real (d : MultivariateStudent ℝ) (rng : Rng) :
     MultivariateStudent.sample d rng = none ↔ d.f_freedom ≤ 0 := by
-  rw [mvt_sample_eq_none_iff, chiSquared_new_real]
+  rw [mvt_sample_eq_none_iff d rfl, chiSquared_new_real]
   split_ifs with h <;> simp [h]
 
 section student
@@ -145,13 +153,85 @@ theorem mvt_sample_toVec (d : MultivariateStudent ℝ) (hν : 0 < d.f_freedom)
   intro g w zs
   have hnew := chiSquared_new_real d.f_freedom
   rw [if_neg (not_le.mpr hν)] at hnew
-  have := mvt_sample_of_ok d _ hnew rng
+  have := mvt_sample_of_ok d rfl _ hnew rng
   simp only [rfun_sqrt] at this
   rw [show (2.0 : ℝ) = 2 by norm_num, show (0.5 : ℝ) = 1 / 2 by norm_num] at this
   refine ⟨_, this, rfl, ?_⟩
   simp only
   rw [toVec_vadd _ _ _ (by rw [matvec_length, List.length_map, hL]),
     toVec_matvec _ _ _ (stdNormalVec_length _ _), toMatrix_scale, Matrix.smul_mulVec, add_comm]
+
+/-! ### `MultivariateStudent::sample` with `freedom = ±inf` (since 864abd5): the multivariate normal limit
+
+  Over ℝ there is no infinite `freedom` (`RFun.isInf = false`: the theorems above are unchanged).  The new branch is
+  stated for every carrier in `VectorSamplers.lean` (`mvt_sample_of_inf`, `mvt_sample_of_inf_eq_mvn`,
+  `mvt_sample_of_inf_sim`); here it is instantiated at the exact-value carrier `XR` (IEEE special values, no rounding)
+  and at IEEE `Float`. -/
+
+/-- full(XR): on the exact-value carrier multiplying by the literal `1.0` changes nothing — NaN, ±∞ included -/
+theorem xr_mul_one_lit (e : XR) : e * (1.0 : XR) = e := by
+  rw [XR.ofScientific_eq, show (OfScientific.ofScientific 10 true 1 : ℝ) = 1 by norm_num]
+  cases e with
+  | nan => rfl
+  | ninf => show XR.mul XR.ninf (XR.fin 1) = _; simp [XR.mul, XR.scaleInf]
+  | fin r => rw [XR.fin_mul_fin, mul_one]
+  | pinf => show XR.mul XR.pinf (XR.fin 1) = _; simp [XR.mul, XR.scaleInf]
+
+/-- full(XR): over the exact-value carrier, for `freedom = +∞` or `−∞` (`is_infinite()`): the sampler never panics,
+    draws NO chi-squared variate, and its result is exactly the MultivariateNormal-style affine image
+    `(&scale_chol_decomp * z) + &location` of the `dim` standard normals `z` drawn from the ORIGINAL stream (the weight
+    `1.0` disappears: `xr_mul_one_lit`), with the stream left by those normals. -/
+theorem mvt_sample_of_inf_xr (d : MultivariateStudent XR) (hinf : d.f_freedom = XR.pinf ∨ d.f_freedom = XR.ninf)
+    (rng : Rng) :
+    let zs := stdNormalVec (α := XR) d.f_location.length rng
+    MultivariateStudent.sample d rng = some (vadd (LA.matvec d.f_scale_chol_decomp zs.1) d.f_location, zs.2) := by
+  have hi : RFun.isInf d.f_freedom = true := by rcases hinf with h | h <;> rw [h] <;> rfl
+  exact mvt_sample_of_inf_eq_affine d hi (fun _ _ e _ => xr_mul_one_lit e) rng
+
+/-- full(XR): … i.e. `MultivariateStudent::sample` with infinite `freedom` IS `MultivariateNormal::sample` (values and
+    stream) of the `MultivariateNormal` with `mu = location` and the same stored Cholesky factor. -/
+theorem mvt_sample_of_inf_xr_eq_mvn (d : MultivariateStudent XR) (hinf : d.f_freedom = XR.pinf ∨ d.f_freedom = XR.ninf)
+    (m : MultivariateNormal XR) (hmu : m.f_mu = d.f_location) (hch : m.f_cov_chol_decomp = d.f_scale_chol_decomp)
+    (rng : Rng) :
+    MultivariateStudent.sample d rng = some (MultivariateNormal.sample m rng) := by
+  have hi : RFun.isInf d.f_freedom = true := by rcases hinf with h | h <;> rw [h] <;> rfl
+  exact mvt_sample_of_inf_eq_mvn d hi (fun _ _ e _ => xr_mul_one_lit e) m hmu hch rng
+
+/-- non-vacuity: an `XR` object with `freedom = +∞`, and a `MultivariateNormal` with the same location and factor -/
+example : ∃ (d : MultivariateStudent XR) (m : MultivariateNormal XR),
+    (d.f_freedom = XR.pinf ∨ d.f_freedom = XR.ninf) ∧ m.f_mu = d.f_location ∧
+      m.f_cov_chol_decomp = d.f_scale_chol_decomp :=
+  ⟨{ f_scale_chol_decomp := [[XR.fin 1]], f_location := [XR.fin 0], f_scale := [[XR.fin 1]], f_freedom := XR.pinf,
+     f_precision := [[XR.fin 1]], f_ln_pdf_const := XR.fin 0 },
+   { f_cov_chol_decomp := [[XR.fin 1]], f_mu := [XR.fin 0], f_cov := [[XR.fin 1]], f_precision := [[XR.fin 1]],
+     f_pdf_const := XR.fin 1 }, Or.inl rfl, rfl, rfl⟩
+
+/-- full(Float): at IEEE `Float` (all laws proved from `Float.Model`: `floatLaws_float`), for every
+    `MultivariateStudent` with `freedom = ±inf` — whatever the entries of the factor and of the location, NaN and ±inf
+    included — the sampler never panics, draws no chi-squared variate, leaves the stream left by the `dim` normal
+    draws made from the ORIGINAL stream, and every entry of the result is the same IEEE value (`==`, or NaN for NaN) as
+    the corresponding entry of `(&scale_chol_decomp * z) + &location`. -/
+theorem mvt_sample_of_inf_float (d : MultivariateStudent Float) (hinf : RFun.isInf d.f_freedom = true) (rng : Rng) :
+    let zs := stdNormalVec (α := Float) d.f_location.length rng
+    ∃ v, MultivariateStudent.sample d rng = some v ∧ v.2 = zs.2 ∧
+      List.Forall₂ Sim v.1 (vadd (LA.matvec d.f_scale_chol_decomp zs.1) d.f_location) :=
+  mvt_sample_of_inf_sim Statrs.Props.Common.floatLaws_float.ord Statrs.Props.Common.floatLaws_float.exact
+    Statrs.Props.Common.floatLaws_float.nan d hinf rng
+
+/-- full(Float): … i.e. entry-wise the same IEEE values, and the same stream, as `MultivariateNormal::sample` of the
+    `MultivariateNormal` with `mu = location` and the same stored Cholesky factor. -/
+theorem mvt_sample_of_inf_float_mvn (d : MultivariateStudent Float) (hinf : RFun.isInf d.f_freedom = true)
+    (m : MultivariateNormal Float) (hmu : m.f_mu = d.f_location)
+    (hch : m.f_cov_chol_decomp = d.f_scale_chol_decomp) (rng : Rng) :
+    ∃ v, MultivariateStudent.sample d rng = some v ∧ v.2 = (MultivariateNormal.sample m rng).2 ∧
+      List.Forall₂ Sim v.1 (MultivariateNormal.sample m rng).1 :=
+  mvt_sample_of_inf_sim_mvn Statrs.Props.Common.floatLaws_float.ord Statrs.Props.Common.floatLaws_float.exact
+    Statrs.Props.Common.floatLaws_float.nan d hinf m hmu hch rng
+
+/-- non-vacuity: a `Float` object with `freedom = f64::INFINITY` -/
+example : ∃ d : MultivariateStudent Float, RFun.isInf d.f_freedom = true :=
+  ⟨{ f_scale_chol_decomp := [[1.0]], f_location := [0.0], f_scale := [[1.0]], f_freedom := RFun.inf,
+     f_precision := [[1.0]], f_ln_pdf_const := 0.0 }, Statrs.Props.Common.floatLaws_float.inf.inf_isInf⟩
 
 /-! ### `Multinomial::sample` as `OVector<f64>` -/
 
